@@ -651,7 +651,7 @@ theorem iterator_result_spec (m : MapD) (ti : Name) (v : RV)
     (v = .lst ∨ v = .tup ∨ v = .iter ∨ v = .gen → forLoop (.map m) = ⟨[ev], .ok (.lst [20, 21])⟩) ∧
     (v = .rng → forLoop (.map m) = ⟨[ev], .ok (.lst [0, 1])⟩) ∧
     (v = .innerIter →
-      forLoop (.map m) = ⟨[ev, ⟨61, .mk .Iterator, .inner false, []⟩], .ok (.lst [20, 21])⟩) ∧
+      forLoop (.map m) = ⟨[ev, ⟨901, .mk .Iterator, .inner false, []⟩], .ok (.lst [20, 21])⟩) ∧
     (v = .innerNext → (forLoop (.map m)).res = .ok (.lst [10, 11])) ∧
     ((∃ n, v = .int n) ∨ v = .null ∨ (∃ b, v = .bool b) → forLoop (.map m) = ⟨[ev], .err .type⟩) := by
   intro ev
